@@ -5,6 +5,7 @@ import (
 	"go/constant"
 	"go/token"
 	"go/types"
+	"os"
 	"sort"
 	"strings"
 
@@ -107,6 +108,11 @@ func runC12(c *core.Ctx) {
 	}
 	c.Floor("ignore.funnel", 2)
 
+	if os.Getenv("FV_C12_UNBR") != "" {
+		for _, l := range listUnbracketedErrors(c) {
+			fmt.Fprintln(os.Stderr, "UNBR", l)
+		}
+	}
 	// ---- pairing
 	pairs := map[string]string{"SetupStatement": "TeardownStatement", "SetupBlockStatement": "TeardownBlockStatement"}
 	for _, fn := range all {
@@ -132,6 +138,31 @@ func runC12(c *core.Ctx) {
 					if core.Reaches(s, b) {
 						inLoop = true
 					}
+				}
+				// a direct (not deferred) teardown on the same meta that follows at once: nothing is linted in between, the
+				// statement only carries directives (break / fallthrough); fine inside a loop as well
+				direct := false
+				for _, nx := range b.Instrs[idx+1:] {
+					if nc, isCall := nx.(*ssa.Call); isCall {
+						if nc.Common().IsInvoke() && nc.Common().Method.Name() == "GetMeta" {
+							continue
+						}
+						sc := nc.Common().StaticCallee()
+						if sc != nil && sc.Name() == "GetMeta" {
+							continue
+						}
+						if sc != nil && sc.Name() == want && sc.Pkg == cal.Pkg && sameMeta(call.Common().Args[1], nc.Common().Args[1]) {
+							direct = true
+						}
+						break
+					}
+					if _, isDefer := nx.(*ssa.Defer); isDefer {
+						break
+					}
+				}
+				if direct {
+					c.Discharge("ignore.pairing", key+"|direct", in.Pos(), "followed at once by "+want+" on the same meta")
+					continue
 				}
 				if inLoop {
 					c.Report("ignore.pairing", key+"|loop", in.Pos(), cal.Name()+" is called inside a loop of its function: its deferred teardown would only run when the whole function returns, so the directive leaks onto the following statements")
@@ -191,6 +222,125 @@ func runC12(c *core.Ctx) {
 			}
 		}
 	}
+	// restoring teardowns: Setup<X> saves a set (a clone of field F appended to a stack field of ignore) and Teardown<X>
+	// stores the saved value back into F on a path that dominates nothing else: the set is restored wholesale, whatever
+	// the directives of the statement did to it
+	restores := map[string]map[string]bool{} // "Statement" -> field -> true
+	for _, variant := range []string{"Statement", "BlockStatement"} {
+		su := prog.SSAFunc("linter", "ignore.Setup"+variant)
+		td := prog.SSAFunc("linter", "ignore.Teardown"+variant)
+		if su == nil || td == nil {
+			continue
+		}
+		saved := map[string]bool{}
+		stack := ""
+		for _, b := range su.Blocks {
+			for _, in := range b.Instrs {
+				st, ok := in.(*ssa.Store)
+				if !ok {
+					continue
+				}
+				f := core.FieldOf(st.Addr)
+				if f == nil || !strings.HasSuffix(core.FieldOwner(st.Addr), "/linter.ignore") {
+					continue
+				}
+				if _, isSlice := f.Type().Underlying().(*types.Slice); !isSlice {
+					continue
+				}
+				stack = f.Name()
+			}
+		}
+		// the sets that are copied as a whole (a load of the struct, e.g. as the receiver of clone())
+		for _, b := range su.Blocks {
+			for _, in := range b.Instrs {
+				ld, ok := in.(*ssa.UnOp)
+				if !ok || ld.Op != token.MUL {
+					continue
+				}
+				if g := core.FieldOf(ld.X); g != nil && strings.HasPrefix(g.Name(), "ignore") && strings.HasSuffix(core.FieldOwner(ld.X), "/linter.ignore") {
+					if _, isStruct := g.Type().Underlying().(*types.Struct); isStruct {
+						saved[g.Name()] = true
+					}
+				}
+			}
+		}
+		if stack == "" {
+			continue
+		}
+		for _, b := range td.Blocks {
+			for _, in := range b.Instrs {
+				st, ok := in.(*ssa.Store)
+				if !ok {
+					continue
+				}
+				f := core.FieldOf(st.Addr)
+				if f == nil || !saved[f.Name()] || !strings.HasSuffix(core.FieldOwner(st.Addr), "/linter.ignore") {
+					continue
+				}
+				fromStack := false
+				for x := range core.BackSlice(st.Val) {
+					if g := core.FieldOf(x); g != nil && g.Name() == stack {
+						fromStack = true
+					}
+				}
+				if fromStack {
+					if restores[variant] == nil {
+						restores[variant] = map[string]bool{}
+					}
+					restores[variant][f.Name()] = true
+				}
+			}
+		}
+		if len(restores[variant]) > 0 {
+			c.Extra("ignore_restore_"+variant, fmt.Sprintf("Setup%s saves and Teardown%s restores %v through ignore.%s", variant, variant, restores[variant], stack))
+		}
+	}
+	// ---- nesting: statements nest (a block inside an if inside a block …) and the per-statement sets are single fields,
+	// so the teardown of an inner statement must put back what the enclosing statement had: plain clearing wipes the
+	// enclosing statement's directive, and a saved copy that shares the rules map is changed by the inner statement
+	for _, f := range []string{"ignoreNextLine", "ignoreThisLine"} {
+		key := "Statement|" + f
+		if restores["Statement"][f] {
+			c.Discharge("ignore.nesting", key, ign.Pos(), "TeardownStatement restores the set saved by SetupStatement")
+		} else {
+			c.ReportAt("ignore.nesting", key, "linter/ignore.go", 0, fmt.Sprintf("TeardownStatement clears %s instead of restoring what the enclosing statement had set: a directive on a statement inside an ignored if / subroutine cancels the enclosing directive for the rest of its body", f))
+		}
+	}
+	if su := prog.SSAFunc("linter", "ignore.SetupStatement"); su != nil {
+		deep := false
+		for _, b := range su.Blocks {
+			for _, in := range b.Instrs {
+				cal := core.StaticCallee(in)
+				if cal == nil || cal.Pkg == nil || cal.Pkg.Pkg.Path() != linterPkg || cal.Signature.Recv() == nil || core.NamedTypeName(derefType(cal.Signature.Recv().Type())) != "ignoredRules" {
+					continue
+				}
+				for _, cb := range cal.Blocks {
+					for _, cin := range cb.Instrs {
+						if _, ok := cin.(*ssa.MakeMap); ok {
+							deep = true
+						}
+					}
+				}
+			}
+		}
+		if len(restores["Statement"]) > 0 {
+			if deep {
+				c.Discharge("ignore.nesting", "Statement|deep-copy", su.Pos(), "the saved sets are copies with their own rules map")
+			} else {
+				c.Report("ignore.nesting", "Statement|deep-copy", su.Pos(), "SetupStatement saves the ignore sets by value: the saved struct shares its rules map with the live one, so rules added by an inner directive are still there after the restore and leak onto the rest of the enclosing statement")
+			}
+		}
+	}
+	stackTest := func(cond ssa.Value) bool {
+		for x := range core.BackSlice(cond) {
+			if g := core.FieldOf(x); g != nil && strings.HasSuffix(core.FieldOwner(x), "/linter.ignore") {
+				if _, isSlice := g.Type().Underlying().(*types.Slice); isSlice {
+					return true
+				}
+			}
+		}
+		return false
+	}
 	type op struct {
 		fn, op, field, label, list string
 		pos                        token.Pos
@@ -233,6 +383,9 @@ func runC12(c *core.Ctx) {
 					cond := core.BranchCond(e.From)
 					if cond == nil {
 						continue
+					}
+					if stackTest(cond) {
+						continue // emptiness test of the save stack: the fallback for a teardown without a matching setup
 					}
 					if bo, ok := cond.(*ssa.BinOp); ok {
 						if bo.Op == token.LSS {
@@ -287,7 +440,9 @@ func runC12(c *core.Ctx) {
 		}
 		if strings.HasPrefix(o.fn, "Setup") && o.op == "ignore" && o.field != "ignoreRange" {
 			td := "Teardown" + strings.TrimPrefix(o.fn, "Setup")
-			if has(td, "unignore", o.field, o.label, o.list) {
+			if restores[strings.TrimPrefix(o.fn, "Setup")][o.field] {
+				c.Discharge("ignore.symmetry", key, o.pos, td+" restores the set to the value saved by "+o.fn)
+			} else if has(td, "unignore", o.field, o.label, o.list) {
 				c.Discharge("ignore.symmetry", key, o.pos, td+" clears the same set under the same directive over Meta."+o.list)
 			} else {
 				c.Report("ignore.symmetry", key+"|no-teardown", o.pos, fmt.Sprintf("%s fills %s for directive %s from Meta.%s but %s does not clear it: the suppression outlives the statement", o.fn, o.field, o.label, o.list, td))
@@ -344,6 +499,127 @@ func runC12(c *core.Ctx) {
 		}
 	}
 
+	// ---- clause slots: comments in front of a clause keyword (else if / else / case / default) and before the closing
+	// brace of a switch are attached by the parser to the clause node's Leading and to the switch's Infix; they belong to
+	// no statement that is linted with setup and teardown, so the statement linters must hand them to the ignore state
+	// themselves (to a method that closes the range on falco-ignore-end)
+	closesRange := func(fn *ssa.Function) bool {
+		if fn == nil {
+			return false
+		}
+		for _, b := range fn.Blocks {
+			for _, in := range b.Instrs {
+				cal := core.StaticCallee(in)
+				if cal == nil || cal.Name() != "unignoreRules" {
+					continue
+				}
+				for x := range core.BackSlice(in.(ssa.CallInstruction).Common().Args[0]) {
+					if f := core.FieldOf(x); f != nil && f.Name() == "ignoreRange" {
+						return true
+					}
+				}
+			}
+		}
+		return false
+	}
+	type clauseSlot struct {
+		fn, label string
+		path      []string
+	}
+	for _, cs := range []clauseSlot{
+		{"Linter.lintIfStatement", "else if", []string{"Another", "Leading"}},
+		{"Linter.lintIfStatement", "else", []string{"Alternative", "Leading"}},
+		{"Linter.lintSwitchStatement", "case / default", []string{"Cases", "Leading"}},
+		{"Linter.lintSwitchStatement", "closing brace of switch", []string{"Infix"}},
+	} {
+		fn := prog.SSAFunc("linter", cs.fn)
+		if fn == nil {
+			c.MissingAnchor("ignore.clauses", "linter."+cs.fn)
+			continue
+		}
+		found := false
+		for _, b := range fn.Blocks {
+			for _, in := range b.Instrs {
+				call, ok := in.(*ssa.Call)
+				if !ok {
+					continue
+				}
+				cal := call.Common().StaticCallee()
+				if cal == nil || cal.Signature.Recv() == nil || core.NamedTypeName(derefType(cal.Signature.Recv().Type())) != "ignore" || !closesRange(cal) {
+					continue
+				}
+				for _, a := range call.Common().Args[1:] {
+					// the field names on the way from the statement to the comments, ignoring element selection
+					var names []string
+					for x := range core.BackSlice(a) {
+						if f := core.FieldOf(x); f != nil {
+							names = append(names, f.Name())
+						}
+					}
+					all := true
+					for _, want := range cs.path {
+						hit := false
+						for _, n := range names {
+							if n == want {
+								hit = true
+							}
+						}
+						if !hit {
+							all = false
+						}
+					}
+					// the switch's own Infix: no Cases on the way
+					if all && len(cs.path) == 1 {
+						for _, n := range names {
+							if n == "Cases" || n == "Another" || n == "Alternative" {
+								all = false
+							}
+						}
+					}
+					if all {
+						found = true
+					}
+				}
+			}
+		}
+		key := cs.fn + "|" + strings.Join(cs.path, ".")
+		if found {
+			c.Discharge("ignore.clauses", key, fn.Pos(), "the comments in front of "+cs.label+" are handed to an ignore method that closes the range on falco-ignore-end")
+		} else {
+			c.Report("ignore.clauses", key, fn.Pos(), fmt.Sprintf("%s never hands the comments in front of %s (%s) to the ignore state: a `falco-ignore-end` written there does not close its range, which then hides every later diagnostic of the file", cs.fn, cs.label, strings.Join(cs.path, ".")))
+		}
+	}
+	// break and fallthrough carry comments too
+	if fn := prog.SSAFunc("linter", "Linter.lintSwitchStatement"); fn != nil {
+		handled := false
+		for _, b := range fn.Blocks {
+			for _, in := range b.Instrs {
+				if cal := core.StaticCallee(in); cal != nil && (cal.Name() == "SetupStatement" || cal.Name() == "lintStatement") {
+					// reached on the break / fallthrough arm: the block is dominated by a type assertion to one of the two kinds
+					for _, blk := range fn.Blocks {
+						iff, ok := blk.Instrs[len(blk.Instrs)-1].(*ssa.If)
+						if !ok {
+							continue
+						}
+						if ex, ok := iff.Cond.(*ssa.Extract); ok {
+							if ta, ok := ex.Tuple.(*ssa.TypeAssert); ok {
+								k := core.NamedTypeName(derefType(ta.AssertedType))
+								if (k == "BreakStatement" || k == "FallthroughStatement") && (core.EdgeDominates(blk, 0, b) || blk.Succs[0] == b) {
+									handled = true
+								}
+							}
+						}
+					}
+				}
+			}
+		}
+		if handled {
+			c.Discharge("ignore.clauses", "Linter.lintSwitchStatement|break/fallthrough", fn.Pos(), "break and fallthrough statements get the ignore setup and teardown")
+		} else {
+			c.Report("ignore.clauses", "Linter.lintSwitchStatement|break/fallthrough", fn.Pos(), "lintSwitchStatement skips break and fallthrough statements without reading their comments: a `falco-ignore-end` written before `break;` does not close its range")
+		}
+	}
+
 	// ---- markers: the directive parser strips every comment marker the lexer produces (#, //, /* ... */)
 	if pic := prog.SSAFunc("linter", "parseIgnoreComment"); pic != nil {
 		lead, tail := "", false
@@ -384,6 +660,68 @@ func runC12(c *core.Ctx) {
 		} else {
 			c.Report("ignore.markers", "parseIgnoreComment", pic.Pos(), fmt.Sprintf("parseIgnoreComment does not strip every comment marker (leading cutset %q, closing */ stripped: %v): a directive written as /* ... */ gets `*/` as a rule name and ignores nothing", lead, tail))
 		}
+		// ---- emptyrule: a rule name taken from the list is tested non-empty (a trailing or doubled comma would name the
+		// rule "", which every diagnostic without a rule carries: they would all be suppressed)
+		nConv := 0
+		var picBlocks []*ssa.BasicBlock
+		picBlocks = append(picBlocks, pic.Blocks...)
+		for _, af := range pic.AnonFuncs { // the body of a range-over-func loop is a closure
+			picBlocks = append(picBlocks, af.Blocks...)
+		}
+		for _, b := range picBlocks {
+			for _, in := range b.Instrs {
+				var operand ssa.Value
+				switch t := in.(type) {
+				case *ssa.ChangeType:
+					if core.NamedTypeName(t.Type()) == "Rule" {
+						operand = t.X
+					}
+				case *ssa.Convert:
+					if core.NamedTypeName(t.Type()) == "Rule" {
+						operand = t.X
+					}
+				}
+				if operand == nil {
+					continue
+				}
+				nConv++
+				key := fmt.Sprintf("parseIgnoreComment|rule name#%d", nConv)
+				guarded := false
+				if operand.Referrers() != nil {
+					for _, r := range *operand.Referrers() {
+						bo, ok := r.(*ssa.BinOp)
+						if !ok || (bo.Op != token.EQL && bo.Op != token.NEQ) || bo.Referrers() == nil {
+							continue
+						}
+						other := bo.Y
+						if bo.Y == operand {
+							other = bo.X
+						}
+						kc, ok := other.(*ssa.Const)
+						if !ok || kc.Value == nil || kc.Value.Kind() != constant.String || constant.StringVal(kc.Value) != "" {
+							continue
+						}
+						for _, rr := range *bo.Referrers() {
+							if iff, ok := rr.(*ssa.If); ok {
+								idx := 0
+								if bo.Op == token.EQL {
+									idx = 1
+								}
+								if core.EdgeDominates(iff.Block(), idx, in.Block()) {
+									guarded = true
+								}
+							}
+						}
+					}
+				}
+				if guarded {
+					c.Discharge("ignore.emptyrule", key, in.Pos(), "only a non-empty name becomes a rule")
+				} else {
+					c.Report("ignore.emptyrule", key, in.Pos(), "parseIgnoreComment turns a piece of the rule list into a rule without testing that it is not empty: `falco-ignore-next-line a,` names the rule \"\", which is the rule of every diagnostic that has none, so they are all suppressed in the covered statement")
+				}
+			}
+		}
+		c.Floor("ignore.emptyrule", 1)
 	} else {
 		c.MissingAnchor("ignore.markers", "linter.parseIgnoreComment")
 	}
@@ -680,4 +1018,60 @@ func checkIgnoreCover(c *core.Ctx, rule string) {
 	if n == 0 {
 		c.MissingAnchor(rule, "no call lints an ast.Statement")
 	}
+}
+
+// listUnbracketedErrors (developer aid, FV_C12_UNBR): functions that report diagnostics and are reachable from Lint
+// without passing through the statement bracket.
+func listUnbracketedErrors(c *core.Ctx) []string {
+	prog := c.Prog
+	lint := prog.SSAFunc("linter", "Linter.Lint")
+	errFn := prog.SSAFunc("linter", "Linter.Error")
+	if lint == nil || errFn == nil {
+		return nil
+	}
+	isBracket := func(fn *ssa.Function) bool {
+		// calls SetupStatement (directly)
+		for _, b := range fn.Blocks {
+			for _, in := range b.Instrs {
+				if cal := core.StaticCallee(in); cal != nil && (cal.Name() == "SetupStatement") {
+					return true
+				}
+			}
+		}
+		return false
+	}
+	seen := map[*ssa.Function]bool{}
+	var out []string
+	var walk func(fn *ssa.Function)
+	walk = func(fn *ssa.Function) {
+		if fn == nil || seen[fn] || fn.Blocks == nil || fn.Pkg == nil || !strings.HasPrefix(fn.Pkg.Pkg.Path(), linterPkg) {
+			return
+		}
+		seen[fn] = true
+		if isBracket(fn) {
+			return
+		}
+		reports := false
+		for _, b := range fn.Blocks {
+			for _, in := range b.Instrs {
+				if cal := core.StaticCallee(in); cal != nil {
+					if cal == errFn {
+						reports = true
+					}
+					walk(cal)
+				}
+				if mc, ok := in.(*ssa.MakeClosure); ok {
+					if f, ok := mc.Fn.(*ssa.Function); ok {
+						walk(f)
+					}
+				}
+			}
+		}
+		if reports {
+			out = append(out, core.FnName(fn))
+		}
+	}
+	walk(lint)
+	sort.Strings(out)
+	return out
 }
